@@ -96,11 +96,23 @@ def strip_comments(src):
 
 
 def theorems_of(relpath):
-    """(namespace-qualified theorem names) of a Props file; one namespace per file by convention."""
+    """Namespace-qualified names of the (non-private) theorems of a Props file."""
     src = strip_comments(open(os.path.join(LEAN, relpath)).read())
-    ns = re.search(r"^namespace\s+(\S+)", src, re.M)
-    pre = ns.group(1) + "." if ns else ""
-    return [pre + m for m in re.findall(r"^(?:protected\s+)?theorem\s+([^\s:({\[]+)", src, re.M)]
+    ns = []
+    out = []
+    for line in src.splitlines():
+        m = re.match(r"^namespace\s+(\S+)", line)
+        if m:
+            ns.append(m.group(1))
+            continue
+        m = re.match(r"^end\s+(\S+)", line)
+        if m and ns and ns[-1] == m.group(1):
+            ns.pop()
+            continue
+        m = re.match(r"^(?:protected\s+)?theorem\s+([^\s:({\[]+)", line)
+        if m:
+            out.append(".".join(ns + [m.group(1)]))
+    return out
 
 
 def lean_audit(prop, props_files, extra_sources=()):
